@@ -129,9 +129,45 @@ def check_scalar(case):
         raise Violation('denotes-other-value', case, '%s | json=%r' % (d, txt[:300]), (m[0],))
 
 
+def check_after_failed_dump(case):
+    """A dump that is refused (3.0-only data smuggled into a row of a 2.0 grid, or a value of no Haystack kind) must not
+    leave anything behind: once the row is repaired, the same Grid object dumps to well-formed JSON like any other."""
+    import hszinc
+    m = case['grid']
+    g = model.grid_from_model(m)
+    bad = object() if case.get('poison') == 'object' else hszinc.NA
+    if len(g) == 0:
+        g.append({m[3][0][0]: 1.0})
+        m = ['grid', m[1], m[2], m[3], [[[m[3][0][0], ['num', 1.0]]]]]
+    row = g[0]
+    col = m[3][0][0]
+    old = row.get(col, None)
+    had = col in row
+    for attempt in range(2):
+        row[col] = bad
+        try:
+            hszinc.dump(g, mode=hszinc.MODE_JSON)
+            if m[1] == '2.0' or case.get('poison') == 'object':
+                raise Violation('dump-accepts-bad-value', case, 'a grid holding %r in a cell was dumped' % (bad,))
+        except (ValueError, NotImplementedError):
+            pass
+        if had:
+            row[col] = old
+        else:
+            del row[col]
+        txt = guarded('dump-raises-after-failed-dump', case, hszinc.dump, g, mode=hszinc.MODE_JSON)
+        obj = strict_loads(txt)
+        check_grid_shape(model.normalise(m), obj, case)
+        back = json_ref.read_document(obj)
+        d = model.diff(model.normalise(m), back[0], tol=True)
+        if d:
+            raise Violation('denotes-other-value', case, 'after a failed dump: %s' % d)
+
+
 def plan(tier, seed, excl):
     q = tier == 'quick'
     t = [('catalogue-scalars', {'ver': v}) for v in ('2.0', '3.0')]
+    t.append(('after-failed-dump', {}))
     t += [('catalogue-grids', {'shard': i, 'of': 2}) for i in range(2)]
     t += [('scalars', {'shard': i, 'n': 3000 if q else 80000}) for i in range(6)]
     t += [('grids', {'shard': i, 'n': 1200 if q else 40000}) for i in range(16)]
@@ -151,6 +187,20 @@ def run(part, args, env):
             except Violation as v:
                 acc.violation(v)
         acc.exhaustive['catalogue of boundary scalars x versions'] = True
+    elif part == 'after-failed-dump':
+        n = 0
+        for i, m in enumerate(gen.catalogue_grids(excl)):
+            if i % 9:
+                continue
+            for poison in ('na', 'object'):
+                case = {'kind': 'after-failed-dump', 'grid': m, 'poison': poison}
+                n += 1
+                try:
+                    check_after_failed_dump(case)
+                except Violation as v:
+                    acc.violation(v)
+        acc.bulk(n, n, labels=('after-failed-dump',))
+        acc.sample({'kind': 'after-failed-dump', 'grids': n})
     elif part == 'catalogue-grids':
         for i, m in enumerate(gen.catalogue_grids(excl)):
             if i % args['of'] != args['shard']:
@@ -189,6 +239,8 @@ def run(part, args, env):
 
 
 def replay(stage, case):
+    if case['kind'] == 'after-failed-dump':
+        return check_after_failed_dump(case)
     if case['kind'] == 'scalar':
         check_scalar(case)
     else:
